@@ -349,6 +349,8 @@ def run(ctx: Ctx) -> None:
     r03_5(ctx, closure)
     r03_6(ctx, roots)
     r03_7(ctx, closure)
+    from . import c12 as _c12p
+    _c12p.r12_11(ctx, rule="R03.8")  # the post-pass does not follow a link that took a file's place
 
 
 def _expand_at(f: Func, e: ast.AST, at: ast.AST, depth: int = 5) -> ast.AST:
